@@ -32,6 +32,7 @@ class _Infeasible(Exception):
 class Path:
     def __init__(self):
         self.choice = {}
+        self.callocc = {}    # term of an impure call -> nodes that produced it on this path, in order
         self.env = {}
         self.atoms = {}
         self.val = {}
@@ -81,7 +82,7 @@ def plain(s):
         return tuple(plain(x) for x in s)
     if isinstance(s, list):
         return [plain(x) for x in s]
-    return _re.sub(r"@L\d+\+?", "", s) if isinstance(s, str) else s
+    return _re.sub(r"@L\d+\+?|(?<=\))#\d+", "", s) if isinstance(s, str) else s
 
 
 class _Ev:
@@ -358,6 +359,17 @@ class _Ev:
                 # memory reachable from the callee may change
                 for key in [k_ for k_ in p.env if any(c in k_ for c in ("->", "[", "*", "."))]:
                     del p.env[key]
+                # what an impure call returns is a value of its own each time it is made: the second
+                # identical call of a path is marked #2, and a call made after a loop went round carries
+                # the loop's mark like a memory read does
+                term = "%s(%s)" % (cal, ", ".join(args))
+                if p.epoch:
+                    term += "@" + p.epoch
+                occ = p.callocc.setdefault(term, [])
+                if j not in occ:
+                    occ.append(j)
+                n_ = occ.index(j)
+                return lin.p_atom(term if n_ == 0 else "%s#%d" % (term, n_ + 1))
             return lin.p_atom("%s(%s)" % (cal, ", ".join(args)))
         if k == "Cond":
             c, a, b = nd["ch"]
@@ -543,6 +555,7 @@ def run_paths(fn, P=None, limit=4096, start=None, stops=None, init_env=None, dep
         q.end = p.end
         q.epoch = p.epoch
         q.choice = dict(p.choice)
+        q.callocc = {k_: list(v_) for k_, v_ in p.callocc.items()}
         return q
 
     def go(p, b):
@@ -655,3 +668,36 @@ def field_of(term, field):
         if ("->" in base or "." in base) and "->" not in idx and "." not in idx:
             return "%s[%s].%s" % (base, idx, field)
     return "%s->%s" % (_wrap(term), field)
+
+
+def arg_bounds(fn, P, call, ai):
+    """(lower, upper, n): on every value path that makes the call `call` (a node), is its argument ai known to
+    be bounded below by a number (k < v, k <= v) and bounded above (v < t, v <= t)?  Decides
+    range tests that reach the call through a flag or a helper's status instead of dominating it.  The paths
+    are those of the innermost enclosing loop's body, or of the function.  n is the number of paths seen."""
+    import re as _re
+    loop = None
+    for a in fn.ancestors(call):
+        if fn.k(a) in ("While", "For", "Do"):
+            loop = a
+            break
+    pts = loop_paths(fn, loop, P) if loop is not None else run_paths(fn, P)
+    lo = hi = True
+    n = 0
+    num = lambda t: _re.match(r"^-?[\d.]+$", t) is not None
+    for pt in pts:
+        for ev_ in pt.events:
+            if ev_[0] != "call" or ev_[3] != call:
+                continue
+            n += 1
+            v = ev_[2][ai]
+            l_ = h_ = False
+            for k_, pol in pt.atoms.items():
+                if k_[0] not in ("<", "<="):
+                    continue
+                if (k_[2] == v and num(k_[1]) and pol) or (k_[1] == v and num(k_[2]) and not pol):
+                    l_ = True
+                if (k_[1] == v and pol) or (k_[2] == v and not pol):
+                    h_ = True
+            lo, hi = lo and l_, hi and h_
+    return (lo and n > 0, hi and n > 0, n)
